@@ -24,7 +24,7 @@ type verifChan struct {
 	inRecv        int
 	inClose       int
 	owner         *sync.Mutex // the mutex that must be held during Send/Close
-	recvErr       error       // when set, returned by the next Recv instead of blocking
+	recvFail      error       // a nil record in `in` makes Recv fail with this error
 	sendFail      int         // fail the k-th Send (1-based); 0 = never
 	sends         int
 	afterClose    int // Sends after Close
@@ -40,6 +40,16 @@ func (c *verifChan) Send(b []byte) error {
 	vassert(c.inClose == 0, "C10: Send overlaps Close")
 	if c.owner != nil {
 		vassert(lockHeld(c.owner), "C10: Send outside the owner's mutex")
+	}
+	// C10: every record is one complete JSON-RPC message
+	tok, ok := tokParse(b)
+	vassert(ok, "C10: a record passed to Send is valid JSON")
+	if tokKind(tok) != tkObject {
+		elems, isArr := tokElems(tok)
+		vassert(isArr && len(elems) > 0, "C10: a record is a JSON object or a non-empty array")
+		for _, e := range elems {
+			vassert(tokKind(e) == tkObject, "C10: ... of objects")
+		}
 	}
 	vyield()
 	c.sends++
@@ -64,6 +74,9 @@ func (c *verifChan) Recv() ([]byte, error) {
 	case b, ok := <-c.in:
 		if !ok {
 			return nil, io.EOF
+		}
+		if b == nil && c.recvFail != nil {
+			return nil, c.recvFail
 		}
 		return b, nil
 	case <-c.done:
